@@ -181,9 +181,11 @@ def sched_configs(r, tier):
     return out
 
 
-REPLAY = {'quick': [('ab', 2, 70)],
-          'thorough': [('ab', 2, None), ('a_b', 2, None), ('abc', 2, 500),
-                       ('ab_c', 3, 400)]}
+# (system, workers, sample size | None = all, late completions while the main
+# loop is held after a success)
+REPLAY = {'quick': [('ab', 2, 80, 1)],
+          'thorough': [('ab', 2, None, 1), ('a_b', 2, None, 1),
+                       ('abc', 2, 500, 1), ('ab_c', 3, 400, 0)]}
 
 
 def replay_report(rep, rr):
